@@ -4,7 +4,7 @@ from analysis.facts import callee, callee_short, last_seg, tyname
 from analysis.cfg import cfg
 from analysis.defuse import Tracer, du, consts_of
 from analysis.fieldcov import fields_read
-from analysis.guards import GuardFlow
+from analysis.guards import GuardFlow, resolve_cond
 from analysis.tables import (const_strings_of_operand, compared_strings, string_to_string_table, matched_literals,
                              explicit_arms, variant_to_value_table, string_to_variant_table)
 
@@ -517,6 +517,53 @@ def run(chk, prog):
                        '%s emits a body and then inserts a token in front of it without having set the scope\'s '
                        'param_offset: index paths computed inside the body are off by one' % fn.short, fn.loc(eb))
     chk.floor(RI, 'bodies that get a token inserted in front', n_ins, 2)
+
+    # ---------------- slices between two independent searches
+    RO = 'C06.slice-bounds-ordered'
+    chk.rule(RO, 'Where the compiler slices a string between two positions found by independent searches in opposite '
+             'directions - the first "(" from the left (find) and the last ")" from the right (rfind, possibly with a '
+             'default) - the slice is dominated by a comparison of the two positions: on input such as "-> a -> b(" the '
+             'right position precedes the left one and the slice aborts the compiler.')
+    n_sl = 0
+    for fn in sorted(prog.fns.values(), key=lambda f: f.p):
+        if fn.crate != 'bladeink_compiler':
+            continue
+        gfn = None
+        for bb, t in fn.calls():
+            trt = t['f'].get('trait') or ''
+            st_ = t['f'].get('self') or ''
+            targs = ' '.join(t['f'].get('targs') or [])
+            if not trt.endswith('ops::index::Index') or not (st_ == 'str' or st_.endswith('string::String')) \
+                    or 'Range<' not in targs or len(t['args']) < 2:
+                continue
+            a1 = t['args'][1]
+            df = du(fn).single_def(a1['pl']['l']) if a1.get('k') in ('copy', 'move') and 'p' not in a1['pl'] else None
+            if not df or df['kind'] != 'assign' or df['rv']['k'] != 'agg' or len(df['rv'].get('ops', [])) != 2:
+                continue
+            pa, pb = tr.prov(fn, df['rv']['ops'][0]), tr.prov(fn, df['rv']['ops'][1])
+            left = any(a in ('call:str::find', 'via:str::find') for a in pa)
+            right = any(a in ('call:str::rfind', 'via:str::rfind') for a in pb)
+            if not (left and right):
+                continue
+            n_sl += 1
+            gfn = gfn or cfg(fn)
+            guarded = False
+            for b in gfn.dominators().get(bb, ()):
+                tt = fn.blocks[b]['term']
+                if tt and tt['k'] == 'switch':
+                    c = resolve_cond(prog, fn, tt['d'], tr)
+                    if c is not None and c.desc[0] == 'cmp2':
+                        x, y = c.desc[2], c.desc[3]
+                        fx = any('str::find' in a for a in x), any('str::rfind' in a for a in x)
+                        fy = any('str::find' in a for a in y), any('str::rfind' in a for a in y)
+                        if (fx[0] and fy[1]) or (fx[1] and fy[0]):
+                            guarded = True
+            chk.decide(RO, chk.key(RO, prog.root_fn(fn).short, '#%d' % n_sl), guarded,
+                       'the two positions are compared before the slice',
+                       '%s slices a string from a position found from the left to one found from the right without '
+                       'comparing them: when the right one comes first (an unclosed "(" after an earlier ")", or none at '
+                       'all with a default) the compiler aborts' % prog.root_fn(fn).short, fn.loc(bb))
+    chk.floor(RO, 'slices between a left and a right search', n_sl, 3)
 
     # ---------------- reject unknown
     for name, what in (('ValidationContext::check_target', 'divert target'),
